@@ -413,6 +413,12 @@ class Interp:
             return VTuple([self.fresh(s, f"{label}_{i}") for i, s in enumerate(spec[1:])])
         if isinstance(spec, (list, tuple)) and spec and spec[0] == "list":
             return self.fresh_list(spec[1], label)
+        if spec == "mm" or (isinstance(spec, tuple) and spec and spec[0] == "mm"):
+            v = VOpaque("multimap")
+            v.abstract_mm = True
+            v.touched = True          # a parameter: may already hold entries
+            v.ghost_name = spec[1] if isinstance(spec, tuple) else None
+            return v
         if spec == "lit_ctx":
             from graphql.utilities.validate_input_value import ValidationContext as VC
             items = [self.fresh("bool", "static"), self.fresh(("callback", "errs"), "on_error"),
@@ -2169,7 +2175,12 @@ class Interp:
             if fell_through and lc and lc.get("step_post"):
                 # end-of-iteration assertions (may mention locals of the iteration just executed)
                 for clause in lc["step_post"]:
-                    g = self.spec_eval(clause, self.st.env, ref)
+                    try:
+                        g = self.spec_eval(clause, self.st.env, ref)
+                    except Unsupported as e:
+                        if "unknown name" in str(e):
+                            continue
+                        raise
                     self.oblige("STEP", f"loop {ordinal}: {clause}", g, self.cur_line)
             self.check_invariants(lc, "INV-PRES", ordinal, ref)
             if v0 is not None:
@@ -2255,7 +2266,12 @@ class Interp:
                     fell_through = False
                 if fell_through and lc and lc.get("step_post"):
                     for clause in lc["step_post"]:
-                        g = self.spec_eval(clause, self.st.env, ref, extra={"_i": VInt(i)})
+                        try:
+                            g = self.spec_eval(clause, self.st.env, ref, extra={"_i": VInt(i)})
+                        except Unsupported as e:
+                            if "unknown name" in str(e):
+                                continue   # mentions a local that is not bound on this path
+                            raise
                         self.oblige("STEP", f"loop {ordinal}: {clause}", g, self.cur_line)
             finally:
                 self.iter_snaps.pop()
